@@ -25,3 +25,8 @@ chk("C05",
     "Ledger over the removal-listener log with unique values: owner-mode concurrent rounds (each key written by one goroutine, pool on/off, TTLs under virtual time, MaxSize 1..1000, 2..32 clients, H1 delays) decide exactly-once / true-reason / not-resident / never-phantom per value; deterministic delete-vs-eviction overlaps and the C02 phase-scheduler scripts are replayed with an exact script ledger.",
     "Owner mode fixes the per-key write order to program order; the shared pipeline stays fully concurrent. A value still resident at the end owes no notification.",
     "ledger / conservation checker over the recorded notification log")
+
+chk("C01",
+    "Concurrent histories (4-16 clients x 150-400 ops over 3-12 keys, unique values, TTLs of 1us-5ms, Range visits, loader-backed Gets split into leader=write / follower=read) are recorded at the client boundary with a logical clock and checked per key with porcupine against a sequential map model in which a miss is always legal but a value seen gone may never return. Configurations plain / doorkeeper / entry pool / loading / loading+doorkeeper / loading+pool x MaxSize 1..1000, GOMAXPROCS 2..16, delays at hook H1; plus a scripted scenario that parks a load leader between storing and unregistering (hook H5). Illegal histories are shrunk to a reads-from-closed core. Thorough adds a -race pass.",
+    "Sound only for what was observed: ~200 (quick) / ~6000 (thorough) histories. A porcupine timeout is inconclusive. Costs are all 1.",
+    "linearizability checking (porcupine) of recorded client-boundary histories")
